@@ -39,4 +39,8 @@ def queries(tier):
             add('drain', n, inst=inst)
             add('insert_vector', n, inst=inst)
             add('clear', n, inst=inst)
+    # deeper shapes for remove/update of inner elements (depth >= 2 slots whose parent is not an ancestor of the last slot)
+    for n in ([12, 13] if tier == 'quick' else [11, 12, 13, 14, 15, 16]):
+        for k in ([3, 4, 5, 6] if tier == 'quick' else range(3, n)):
+            add('remove', n, k, inst=0, timeout=600 if tier == 'quick' else 1800)
     return qs
